@@ -202,6 +202,10 @@ func c01Sweep(r *c01Runner, dotted bool) int {
 	run(&c01Filter{k: "bin", lhs: &c01Lhs{k: "sym", name: "strs"}, op: "eq", lit: &c01Lit{k: 'S', s: "a"}})
 	run(&c01Filter{k: "emptyq", name: "places", sub: &c01Filter{k: "q", a: &c01Filter{k: "bin", lhs: &c01Lhs{k: "sym", name: "biz"}, op: "eq", lit: &c01Lit{k: 'S', s: "a"}}}})
 	run(&c01Filter{k: "emptyq", name: "places", sub: &c01Filter{k: "q", a: &c01Filter{k: "bs", name: "biz"}}})
+	if dotted {
+		run(&c01Filter{k: "emptyq", name: "places", sub: &c01Filter{k: "q", a: &c01Filter{k: "bin", lhs: &c01Lhs{k: "sym", name: "orgs.name"}, op: "eq", lit: &c01Lit{k: 'S', s: "b"}}}})
+		run(&c01Filter{k: "bin", lhs: &c01Lhs{k: "sym", name: "places.name"}, op: "eq", lit: &c01Lit{k: 'S', s: "ab"}})
+	}
 	run(&c01Filter{k: "emptyq", name: "name", sub: &c01Filter{k: "q", a: &c01Filter{k: "bc", b: true}}})
 	run(&c01Filter{k: "emptyq", name: "strs", sub: &c01Filter{k: "q", a: &c01Filter{k: "bc", b: true}}})
 	for _, nme := range []string{"flag", "name", "tags.a", "nothing", "unknown"} {
